@@ -68,16 +68,24 @@ impl<'s> Scheme {
     }
 }
 
+/// Linear search, written without a loop for the (at most two-field) schemes of the obligations:
+/// with no loop of two iterations in the harness, `#[kani::unwind(2)]` suffices, which also bounds
+/// the depth to which CBMC unrolls the recursive `LhsValue` drop glue - needed for a VIOLATION
+/// (rather than a timeout) when a mutated `set_field_value_from_name` drops the old value.
 fn get_field_linear<'s>(this: &'s Scheme, name: &str) -> Result<FieldRef<'s>, UnknownFieldError> {
-    let mut i = 0;
-    while i < this.inner.fields.len() {
-        if &*this.inner.fields[i].name == name {
-            return Ok(FieldRef {
-                scheme: this,
-                index: i,
-            });
-        }
-        i += 1;
+    let n = this.inner.fields.len();
+    assert!(n <= 2, "the contract stub is written for schemes of at most two fields");
+    if n > 0 && &*this.inner.fields[0].name == name {
+        return Ok(FieldRef {
+            scheme: this,
+            index: 0,
+        });
+    }
+    if n > 1 && &*this.inner.fields[1].name == name {
+        return Ok(FieldRef {
+            scheme: this,
+            index: 1,
+        });
     }
     Err(UnknownFieldError)
 }
